@@ -103,6 +103,7 @@ class Check:
                 matched.append((v, hit))
             else:
                 new.append(v)
+        self.n_known = len(matched)
         for v, k in matched:
             print("KNOWN-FINDING: property=%s rule=%s %s [%s] %s (%s)" % (
                 self.pid, v["rule"], v["function"], v["key"], k.get("what", v["message"]), v["where"]))
